@@ -105,6 +105,8 @@ def _prim(p, name):
     out = []
     for i, e in enumerate(p.effects):
         v = e.value if isinstance(e, (ast.Expr, ast.Assign)) else None
+        while isinstance(v, (ast.Attribute, ast.Subscript)):       # `idx = free.pop().idx`: the call is evaluated there all the same
+            v = v.value
         if isinstance(v, ast.Call) and u(v.func).endswith(name):
             out.append((i, v, e))
     return out
@@ -131,7 +133,9 @@ def r2_pairing(ctx, hugr, file) -> None:
             pushed = u(push[0][1].args[0]) if push[0][1].args else ""
             # the pushed handle is the node whose slot is cleared (possibly with its metadata stripped)
             node_txt = idx[:-4] if idx.endswith(".idx") else None
-            same = same and node_txt is not None and (pushed == node_txt or pushed.startswith(f"replace({node_txt},"))
+            # (replace(node, ..) on the handle class is written out by the canonical form: Node(node.idx, ..))
+            same = same and node_txt is not None and (pushed == node_txt or pushed.startswith(f"replace({node_txt},") or pushed.startswith(f"Node({node_txt}.idx,")
+                                                       or pushed.startswith(f"Node(idx={node_txt}.idx,"))
             # the removed data is what the slot held before it was cleared
             ret_ok = ret_ok and p.kind == "return" and p.value_text() in (f"old_(self._nodes[{idx}])", f"old_(self[{node_txt}])")
             has_parent = [k for t, k in p.tests if u(t) in (f"self[{node_txt}].parent", f"self[{node_txt}].parent is not None")]
@@ -171,7 +175,10 @@ def r2_pairing(ctx, hugr, file) -> None:
             good = bool(nonempty) and not pops and len(apps) == 1 and not stores
             # the handle is the table length before the append
             from ..tmpl import thas
-            good = good and p.kind == "return" and p.value is not None and (thas(p.value, "old_(Node(len(self._nodes), ANY_))") or thas(p.value, "old_(Node(len(self._nodes)))"))
+            good = good and p.kind == "return" and p.value is not None and (thas(p.value, "old_(Node(len(self._nodes), ANY_))") or thas(p.value, "old_(Node(len(self._nodes)))")
+                                                                          or tmatch(p.value, T("Node(old_(len(self._nodes)), ANY_, ANY_)")) is not None
+                                                                          or tmatch(p.value, T("Node(old_(len(self._nodes)), ANY_)")) is not None
+                                                                          or tmatch(p.value, T("Node(old_(len(self._nodes)))")) is not None)
             ok_fresh = ok_fresh and good
             data = apps[0][1].args[0] if apps and apps[0][1].args else None
         e = tmatch(data, T("NodeData(E_op, E_parent, metadata=E_meta)")) if data is not None else None
